@@ -18,20 +18,26 @@ pub fn load(vals: Vec<Vec<u8>>) {
 }
 
 fn pop(n: usize) -> Vec<u8> {
+    // The values are consumed as one byte stream in call order: Kani's playback lists one entry per
+    // primitive any(), a trace taken from CBMC directly may report a whole array or struct as one
+    // entry. Bytes the solver did not have to fix (sliced away, or past the end) replay as zero.
     QUEUE.with(|q| {
         let mut q = q.borrow_mut();
-        match q.pop_front() {
-            Some(v) if v.len() == n => v,
-            // a trace taken from CBMC directly reports a whole array as one value: split it
-            Some(mut v) if v.len() > n => {
-                let rest = v.split_off(n);
-                q.push_front(rest);
-                v
+        let mut out = Vec::with_capacity(n);
+        while out.len() < n {
+            match q.pop_front() {
+                Some(mut v) => {
+                    let need = n - out.len();
+                    if v.len() > need {
+                        let rest = v.split_off(need);
+                        q.push_front(rest);
+                    }
+                    out.extend_from_slice(&v);
+                }
+                None => out.resize(n, 0),
             }
-            Some(v) => panic!("{DIVERGED}: wanted {n} bytes, trace has {}", v.len()),
-            // Values the solver did not have to fix (sliced away) replay as zero.
-            None => vec![0; n],
         }
+        out
     })
 }
 
